@@ -628,7 +628,18 @@ func (i *IRCServer) GetSessions() map[robust.Id]Session {
 	defer i.sessionsMu.RUnlock()
 	result := make(map[robust.Id]Session, len(i.sessions))
 	for id, session := range i.sessions {
-		result[id] = *session
+		c := *session
+		// The copy must not share its maps with the session: the status
+		// handler reads them after sessionsMu was released.
+		c.Channels = make(map[lcChan]bool, len(session.Channels))
+		for name, member := range session.Channels {
+			c.Channels[name] = member
+		}
+		c.invitedTo = make(map[lcChan]bool, len(session.invitedTo))
+		for name, invited := range session.invitedTo {
+			c.invitedTo[name] = invited
+		}
+		result[id] = c
 	}
 	return result
 }
